@@ -44,6 +44,13 @@ fn main() {
                 eprintln!("{e}");
                 std::process::exit(1);
             }
+            // the libFuzzer targets (nightly, cargo-fuzz): one execution each, to have them built
+            for (dir, target) in [("fuzz", "import_path"), ("fuzz", "merge"), ("fuzz_esm", "import_path")] {
+                if let Err(e) = subjects::run_fuzz(&ctx, dir, target, 1) {
+                    eprintln!("cargo fuzz {dir}/{target}: {e}");
+                    std::process::exit(1);
+                }
+            }
             println!("setup ok");
         }
         Some("check") => {
